@@ -322,7 +322,7 @@ class C10(F.Check):
                             problems += ref_http.check_request(req, host, port, resource, headers, protocols, compress, expect_key=key)
                             if req.trailing:
                                 problems.append('bytes after the request terminator: %r' % req.trailing[:20])
-                            if url.startswith('wss') != bool(run.world.conns and run.world.conns[0].tls):
+                            if url.lower().startswith('wss') != bool(run.world.conns and run.world.conns[0].tls):
                                 problems.append('TLS used=%r for %s' % (run.world.conns[0].tls, url))
                             peer = run.world.conns[0].peer if run.world.conns else None
                             if peer is None or peer[1] != port:
